@@ -1,7 +1,94 @@
+/-
+  Driver glue for C16: answers the requests of harness/src/c16.rs with the model `Hs.UnitArith` run on the
+  regenerated table `Hs.Gen.UnitsQ` (entry order = order of the `UNITS` array literal).
+    pair A B        → c=<ok|err> m=<name|err> d=<name|err> a=<name|-|err> s=… nm=… nd=…
+    solo A          → the eight results of (x,A) op (y,—) and (x,—) op (y,A), op = + − × ÷
+    none            → the four results of two unit-less Numbers
+    cx A B xbits rbits → `in` when the double `rbits` lies within 1e-14·(|x·sa|+|oa|+|ob|)/|sb| of the exact
+                      value of `A.convert_to(x, B)`, `out …` otherwise, `err` when the model refuses
+  Units are addressed by name (first id).  Not part of any theorem.
+-/
 import Hs.Model.Vx
+import Hs.Model.UnitArith
+import Hs.Gen.UnitsQ
 namespace Hs.Drv.C16
+open Hs Hs.UnitArith
 
-/-- requests `C16 <cmd> ...` (tokens after the property id) -/
-def handle (_ts : List String) : String := "bad-request"
+def es : List QUnit := entryUnits Gen.UnitsQ.units Gen.UnitsQ.entries
+
+/-- units sorted by name, for binary search -/
+def sorted : Array QUnit := Gen.UnitsQ.units.toArray.qsort (fun a b => a.name < b.name)
+
+partial def findGo (n : String) (lo hi : Nat) : Option QUnit :=
+  if lo ≥ hi then none else
+  let mid := (lo + hi) / 2
+  match sorted[mid]? with
+  | none => none
+  | some u =>
+    if u.name = n then some u
+    else if u.name < n then findGo n (mid + 1) hi
+    else findGo n lo mid
+
+def byName (n : String) : Option QUnit := findGo n 0 sorted.size
+
+def uname : Res QUnit → String
+  | .ok u => u.name
+  | _ => "err"
+
+def nname : Res QNum → String
+  | .ok n => match n.unit with
+    | some u => u.name
+    | none => "-"
+  | _ => "err"
+
+def X : Rat := 6
+def Y : Rat := (3 : Rat) / 2
+
+def pairReq (a b : QUnit) : String :=
+  let c := match convertTo a b 1 with
+    | .ok _ => "ok"
+    | _ => "err"
+  let na : QNum := ⟨X, some a⟩
+  let nb : QNum := ⟨Y, some b⟩
+  s!"c={c} m={uname (mulUnits es a b)} d={uname (divUnits es a b)} a={nname (numAdd na nb)} s={nname (numSub na nb)} nm={nname (numMul es na nb)} nd={nname (numDiv es na nb)}"
+
+def soloReq (a : QUnit) : String :=
+  let na : QNum := ⟨X, some a⟩
+  let n0 : QNum := ⟨Y, none⟩
+  " ".intercalate ([numAdd na n0, numSub na n0, numMul es na n0, numDiv es na n0,
+    numAdd n0 na, numSub n0 na, numMul es n0 na, numDiv es n0 na].map nname)
+
+def noneReq : String :=
+  let p : QNum := ⟨X, none⟩
+  let q : QNum := ⟨Y, none⟩
+  " ".intercalate ([numAdd p q, numSub p q, numMul es p q, numDiv es p q].map nname)
+
+def cxReq (a b : QUnit) (xb rb : String) : String :=
+  match (Vx.natOfHex xb).bind ratOfBits, (Vx.natOfHex rb).bind ratOfBits with
+  | some x, some r =>
+    match convertTo a b x with
+    | .ok e =>
+      let mag := qabs (x * a.scale) + qabs a.offset + qabs b.offset
+      let tol := mag / qabs b.scale / 100000000000000
+      if qabs (r - e) ≤ tol then "in" else s!"out exact={e}"
+    | _ => "err"
+  | _, _ => "bad-number"
+
+def handle (ts : List String) : String :=
+  match ts with
+  | ["none"] => noneReq
+  | ["solo", a] =>
+    match byName a with
+    | some a => soloReq a
+    | none => "unknown-unit"
+  | ["pair", a, b] =>
+    match byName a, byName b with
+    | some a, some b => pairReq a b
+    | _, _ => "unknown-unit"
+  | ["cx", a, b, xb, rb] =>
+    match byName a, byName b with
+    | some a, some b => cxReq a b xb rb
+    | _, _ => "unknown-unit"
+  | _ => "bad-request"
 
 end Hs.Drv.C16
